@@ -604,9 +604,11 @@ class ObjCBackend(ObjCBaseBackend):
             return '`{}`'.format(fmt_func(val))
         elif tag == 'field':
             if '.' in val:
-                cls_name, field = val.split('.')
+                # `Type.field` or `namespace.Type.field`; the type may be an alias
+                cls_name, field = val.split('.')[-2:]
                 return ('`{}` in `{}`'.format(
-                    fmt_var(field), self.obj_name_to_namespace[cls_name]))
+                    fmt_var(field),
+                    self.obj_name_to_namespace.get(cls_name, fmt_class(cls_name))))
             else:
                 return fmt_var(val)
         elif tag in ('type', 'val', 'link'):
